@@ -468,16 +468,11 @@ fn main() {
                 "light:accept",
                 "light:accept@min",
                 "light:reject@max",
-                "light:reject:not-enough-power",
-                "light:reject:bad-signature",
-                "light:reject:sig-count",
-                "light:reject:commit-height",
+                "light:reject*",
                 "trust:accept",
                 "trust:accept@min",
                 "trust:reject@max",
-                "trust:reject:not-enough-power",
-                "trust:reject:bad-signature",
-                "trust:reject:double-vote",
+                "trust:reject*",
                 "trust:accept:with-duplicate",
             ],
             exhaustive: true,
